@@ -128,7 +128,7 @@ int vh_cal(void)
 	return 0;
     }
     /* operations on a vnacal_new_t */
-    if (strncmp(op, "new_", 4) == 0 || strcmp(op, "add") == 0 || strcmp(op, "solve") == 0 || strcmp(op, "hash_dump") == 0) {
+    if (strncmp(op, "new_", 4) == 0 || strcmp(op, "add") == 0 || strcmp(op, "solve") == 0 || strcmp(op, "hash_dump") == 0 || strcmp(op, "conn_dump") == 0) {
 	int n;
 	vnacal_new_t *vnp;
 	if (strcmp(op, "new_alloc") == 0) {
@@ -204,6 +204,23 @@ int vh_cal(void)
 	    LIB(need = _vnacal_new_verif_hash_dump(vnp, &alloc_, buf, need));
 	    vh_out("ok %d", alloc_);
 	    for (int i = 0; i < need; ++i) { if (buf[i] < 0) vh_out(" ;"); else vh_out(" %d", buf[i]); }
+	    free(buf);
+	    return 0;
+	}
+	if (strcmp(op, "conn_dump") == 0) {	/* conn_dump n: per standard `| rows cols has <cells not known zero> [: <connectivity matrix>]` (hook) */
+	    extern int _vnacal_new_verif_connectivity_dump(const vnacal_new_t *vnp, int *buffer, int size);
+	    int need, *buf, i = 0;
+	    LIB(need = _vnacal_new_verif_connectivity_dump(vnp, NULL, 0));
+	    buf = malloc(sizeof(int) * (need + 1));
+	    LIB(need = _vnacal_new_verif_connectivity_dump(vnp, buf, need));
+	    vh_out("ok");
+	    while (i + 3 <= need) {
+		int rows = buf[i], cols = buf[i + 1], has = buf[i + 2], np = rows > cols ? rows : cols;
+		vh_out(" | %d %d %d", rows, cols, has);
+		i += 3;
+		for (int k = 0; k < rows * cols && i < need; ++k) vh_out(" %d", buf[i++]);
+		if (has) { vh_out(" :"); for (int k = 0; k < np * np && i < need; ++k) vh_out(" %d", buf[i++]); }
+	    }
 	    free(buf);
 	    return 0;
 	}
@@ -439,6 +456,51 @@ int vh_cal(void)
 	free(f); free_mat(&b); if (ab) free_mat(&a);
 	return 0;
     }
+    if (strcmp(op, "ptprop") == 0) {	/* ptprop c ci <pop> <hexdesc> [<hexvalue>]: the `pt` operations through vnacal_property_*, answers in `pt` form */
+	extern void vh_prop_walk(const vnaproperty_t *node);
+	int ci = (int)tl();
+	const char *pop = tok();
+	char *d = vh_parse_hexbytes(tok());
+	if (d == NULL) return -1;
+	errno = 0;
+	if (strcmp(pop, "type") == 0) {
+	    int t; LIB(t = vnacal_property_type(cal[c], ci, "%s", d));
+	    if (t == -1) vh_out("fail %s", vh_errclass(errno)); else vh_out("ok %c", t);
+	} else if (strcmp(pop, "count") == 0) {
+	    int n; LIB(n = vnacal_property_count(cal[c], ci, "%s", d));
+	    if (n == -1) vh_out("fail %s", vh_errclass(errno)); else vh_out("ok %d", n);
+	} else if (strcmp(pop, "keys") == 0) {
+	    const char **k; LIB(k = vnacal_property_keys(cal[c], ci, "%s", d));
+	    if (k == NULL) vh_out("fail %s", vh_errclass(errno));
+	    else { vh_out("ok"); for (const char **kp = k; *kp; ++kp) vh_out_hexbytes(*kp); LIB(free(k)); }
+	} else if (strcmp(pop, "get") == 0) {
+	    const char *v; LIB(v = vnacal_property_get(cal[c], ci, "%s", d));
+	    if (v == NULL) vh_out("fail %s", vh_errclass(errno)); else { vh_out("ok"); vh_out_hexbytes(v); }
+	} else if (strcmp(pop, "set") == 0) {
+	    int rc; LIB(rc = vnacal_property_set(cal[c], ci, "%s", d));
+	    if (rc == -1) vh_out("fail %s", vh_errclass(errno)); else vh_out("ok %d", rc);
+	} else if (strcmp(pop, "delete") == 0) {
+	    int rc; LIB(rc = vnacal_property_delete(cal[c], ci, "%s", d));
+	    if (rc == -1) vh_out("fail %s", vh_errclass(errno)); else vh_out("ok %d", rc);
+	} else if (strcmp(pop, "get_subtree") == 0) {
+	    vnaproperty_t *s; LIB(s = vnacal_property_get_subtree(cal[c], ci, "%s", d));
+	    if (s == NULL && errno != 0) vh_out("fail %s", vh_errclass(errno)); else { vh_out("ok "); OBS(vh_prop_walk(s)); }
+	} else if (strcmp(pop, "set_subtree") == 0) {
+	    vnaproperty_t **a; LIB(a = vnacal_property_set_subtree(cal[c], ci, "%s", d));
+	    if (a == NULL) vh_out("fail %s", vh_errclass(errno));
+	    else if (vh_ntok >= 7) {
+		char *d2 = vh_parse_hexbytes(vh_tok[6]);
+		int rc; LIB(rc = vnaproperty_set(a, "%s", d2));
+		free(d2);
+		if (rc == -1) vh_out("fail %s", vh_errclass(errno)); else vh_out("ok %d", rc);
+	    } else vh_out("ok 0");
+	} else if (strcmp(pop, "digest") == 0) {
+	    vnaproperty_t *s; LIB(s = vnacal_property_get_subtree(cal[c], ci, "."));
+	    if (s == NULL && errno != 0) vh_out("fail %s", vh_errclass(errno)); else { vh_out("ok "); OBS(vh_prop_walk(s)); }
+	} else { free(d); return -1; }
+	free(d);
+	return 0;
+    }
     if (strcmp(op, "property") == 0) {	/* property c ci <pop> <hexdesc> */
 	int ci = (int)tl();
 	const char *pop = tok();
@@ -463,9 +525,9 @@ int vh_cal(void)
 	    vnaproperty_t **anchor; LIB(anchor = vnacal_property_set_subtree(cal[c], ci, "%s", d)); res(anchor != NULL, 0);
 	} else if (strcmp(pop, "digest") == 0) {	/* the whole subtree, as `pt r digest` prints a register */
 	    extern void vh_prop_walk(const vnaproperty_t *node);
-	    vnaproperty_t *sub; LIB(sub = vnacal_property_get_subtree(cal[c], ci, "%s", d));
-	    vh_out("ok ");
-	    OBS(vh_prop_walk(sub));
+	    vnaproperty_t *sub; errno = 0; LIB(sub = vnacal_property_get_subtree(cal[c], ci, "%s", d));
+	    if (sub == NULL && errno != 0) vh_out("fail %s", vh_errclass(errno));
+	    else { vh_out("ok "); OBS(vh_prop_walk(sub)); }
 	} else { free(d); return -1; }
 	free(d);
 	return 0;
